@@ -172,6 +172,19 @@ func instantiate(c vCase, r *hx.Rng, so [][32]byte, nc []hx.PT) *vInst {
 			exact.Add(exact, in.R.K).Mod(exact, refmodel.L)
 		} else {
 			exact = r.Scalar()
+			// half of the time: the S that would satisfy the equation if the library put the neutral element in the
+			// place of a point it could not decode
+			if r.Intn(2) == 0 {
+				switch {
+				case !in.R.Dec && in.A.Dec && in.A.Known:
+					exact = new(big.Int).Mul(new(big.Int).Mod(hv, refmodel.L), in.A.K)
+					exact.Mod(exact, refmodel.L)
+				case !in.A.Dec && in.R.Dec && in.R.Known:
+					exact = new(big.Int).Mod(in.R.K, refmodel.L)
+				case !in.A.Dec && !in.R.Dec:
+					exact = new(big.Int)
+				}
+			}
 		}
 		switch c.S.R {
 		case "exact":
@@ -327,7 +340,7 @@ func runVerify() {
 		case "C01": // default-mode predicate: everything, sampled in quick
 			want, num, den = true, 1, 10
 		case "C05": // ZIP-215: small-order keys / R and the boundary family
-			want, num, den = smallA || smallR || boundary || c.A.K == "nc" || c.R.K == "nc", 1, 10
+			want, num, den = smallA || smallR || boundary || c.A.K == "nc" || c.R.K == "nc" || c.A.K == "undec" || c.R.K == "undec", 1, 10
 		case "C04": // the S < L boundary in all four verifier modes
 			want, num, den = boundary || c.S.R == "plusL" || c.S.R == "flip", 1, 12
 		case "C09": // small-order refusal
